@@ -15,3 +15,59 @@ package lang
 
 //@ func itoIndexArray [C16 C19]
 //@   requires p != nil && p.Stdout != nil
+
+// ---- C27: job IDs (lang/jobs.go) --------------------------------------------------------------------
+
+//@ type jobs guarded_by mutex: jobs
+//@ type Process ghost sawTerm bool
+//@ type Process ghost lastObs bool
+
+// HasTerminated is an observation of another goroutine's progress. The ghost fields record what this
+// call has seen: $lastObs = the most recent answer, $sawTerm = some answer was true. (trusted: ghost
+// instrumentation of a three-line getter; its lock discipline is checked by the C32 sweep.)
+//@ func (*Process).HasTerminated [C27] trusted
+//@   requires p != nil
+//@   modifies p.$sawTerm, p.$lastObs
+//@   ensures p.$sawTerm == (old(p.$sawTerm) || result)
+//@   ensures p.$lastObs == result
+
+//@ func (*jobs)._hasTerminated [C27 C19]
+//@   requires held(j.mutex)
+//@   requires j != nil && 0 <= i && i < len(j.jobs)
+//@   modifies j.jobs[i].$sawTerm, j.jobs[i].$lastObs
+//@   ensures imp(j.jobs[i] == nil, result)
+//@   ensures imp(j.jobs[i] != nil, result == j.jobs[i].$lastObs)
+//@   ensures imp(j.jobs[i] != nil, j.jobs[i].$sawTerm == (old(j.jobs[i].$sawTerm) || result))
+
+//@ func (*jobs).Add [C27 C19]
+//@   requires j != nil
+//@   ensures len(j.jobs) == len(old@lock1(j.jobs)) + 1
+//@   ensures j.jobs[len(j.jobs)-1] == p
+//@   ensures forall(k, 0, len(j.jobs)-1, j.jobs[k] == old@lock1(j.jobs[k]))
+
+//@ func (*jobs).GarbageCollect [C27 C19]
+//@   requires j != nil
+//@   loop 1 invariant -1 <= i && i < len(j.jobs)
+//@   loop 1 invariant forall(k, 0, i+1, j.jobs[k] == old@lock1(j.jobs[k]))
+//@   loop 1 invariant forall(k, i+1, len(j.jobs), j.jobs[k] == old@lock1(j.jobs[k]) || (j.jobs[k] == nil && old@lock1(j.jobs[k]).$sawTerm))
+//@   loop 1 invariant imp(!running, forall(k, i+1, len(j.jobs), j.jobs[k] == nil))
+//@   loop 1 invariant last == -1 || (i < last && last < len(j.jobs) && forall(k, last, len(j.jobs), j.jobs[k] == nil))
+//@   loop 1 decreases i + 1
+//@   ensures len(j.jobs) <= len(old@lock1(j.jobs))
+//@   ensures forall(k, 0, len(j.jobs), j.jobs[k] == old@lock1(j.jobs[k]) || (j.jobs[k] == nil && (old@lock1(j.jobs[k]) == nil || old@lock1(j.jobs[k]).$sawTerm)))
+//@   ensures forall(k, len(j.jobs), len(old@lock1(j.jobs)), old@lock1(j.jobs[k]) == nil || old@lock1(j.jobs[k]).$sawTerm)
+
+//@ func (*jobs).Get [C27 C19]
+//@   requires j != nil
+//@   ensures imp(jobId < 1 || jobId > len(old@lock1(j.jobs)), result == nil && result1 != nil)
+//@   ensures imp(result1 == nil, result != nil && result == old@lock1(j.jobs[jobId-1]) && !result.$lastObs)
+//@   ensures imp(result1 != nil, result == nil)
+
+//@ func (*jobs).GetLatest [C27 C19]
+//@   requires j != nil
+//@   loop 1 invariant -1 <= i && i < len(j.jobs)
+//@   loop 1 invariant forall(k, i+1, len(j.jobs), j.jobs[k] == nil || j.jobs[k].$sawTerm)
+//@   loop 1 decreases i + 1
+//@   ensures imp(result1 == nil, result != nil && !result.$lastObs)
+//@   ensures imp(result1 == nil, exists(m, 0, len(j.jobs), j.jobs[m] == result && forall(k, m+1, len(j.jobs), j.jobs[k] == nil || j.jobs[k].$sawTerm)))
+//@   ensures imp(result1 != nil, result == nil && forall(k, 0, len(j.jobs), j.jobs[k] == nil || j.jobs[k].$sawTerm))
